@@ -14,6 +14,7 @@ var All = []*ev.Property{
 	C08,
 	C09,
 	C11,
+	C12,
 	C13,
 	C14,
 	C15,
